@@ -390,6 +390,185 @@ theorem forwardRef_congr (cur cur' : Scope) (ps : List Scope) (r : FwdReq)
     | zero => simp [hf]
     | succ n => simp
 
+/-- the gate reads of the current scope only its height, forward declarations, cells and cell requirements -/
+theorem behindStep_congr (cur cur' : Scope) (ps : List Scope) (r : FwdReq)
+    (hh : cur'.height = cur.height) (hf : cur'.forwards = cur.forwards) (hc : cur'.cells = cur.cells)
+    (hr : cur'.reqs = cur.reqs) : behindStep (cur' :: ps) r = behindStep (cur :: ps) r := by
+  simp only [behindStep, hh]
+  split
+  · rfl
+  · cases hn : cur.height - r.height with
+    | zero => simp [hf, hc, Scope.cellReqs, hr]
+    | succ n => simp
+
+theorem unfulfilledBehindAux_congr (cur cur' : Scope) (ps : List Scope)
+    (hh : cur'.height = cur.height) (hf : cur'.forwards = cur.forwards) (hc : cur'.cells = cur.cells)
+    (hr : cur'.reqs = cur.reqs) : ∀ (n : Nat) (pending seen : List FwdReq),
+    unfulfilledBehindAux n (cur' :: ps) pending seen = unfulfilledBehindAux n (cur :: ps) pending seen := by
+  intro n
+  induction n with
+  | zero => intro pending seen; simp [unfulfilledBehindAux]
+  | succ m ih =>
+    intro pending seen
+    cases pending with
+    | nil => simp [unfulfilledBehindAux]
+    | cons r rest =>
+      simp only [unfulfilledBehindAux, behindStep_congr cur cur' ps r hh hf hc hr, ih]
+
+theorem unfulfilledBehind_congr (cur cur' : Scope) (ps : List Scope) (r : FwdReq)
+    (hh : cur'.height = cur.height) (hf : cur'.forwards = cur.forwards) (hc : cur'.cells = cur.cells)
+    (hr : cur'.reqs = cur.reqs) : unfulfilledBehind (cur' :: ps) r = unfulfilledBehind (cur :: ps) r := by
+  have hg : gateFuel (cur' :: ps) = gateFuel (cur :: ps) := by simp [gateFuel, hf, hr]
+  simp only [unfulfilledBehind, hg]
+  exact unfulfilledBehindAux_congr cur cur' ps hh hf hc hr _ _ _
+
+/-- `r'` is reachable from `r` through implemented forward functions: `r` itself, or a requirement recorded on the cell
+of an implemented forward function that is reachable from `r` -/
+inductive Reach (chain : List Scope) : FwdReq → FwdReq → Prop where
+  | refl (r : FwdReq) : Reach chain r r
+  | step (r r1 r2 : FwdReq) (more : List FwdReq) : behindStep chain r = .ok (true, more) → r1 ∈ more →
+      Reach chain r1 r2 → Reach chain r r2
+
+/-- the loop invariant: everything the walk was asked about lies in a set whose new members are either implemented,
+with the requirements of their implementation in the set, or unimplemented and reported -/
+theorem unfulfilledBehindAux_inv (chain : List Scope) : ∀ (n : Nat) (pending seen ms : List FwdReq),
+    unfulfilledBehindAux n chain pending seen = .ok ms →
+    ∃ S : List FwdReq, (∀ x ∈ seen, x ∈ S) ∧ (∀ x ∈ pending, x ∈ S) ∧
+      (∀ x ∈ S, x ∈ seen ∨ (∃ more, behindStep chain x = .ok (true, more) ∧ ∀ y ∈ more, y ∈ S) ∨
+                (x ∈ ms ∧ ∃ more, behindStep chain x = .ok (false, more))) ∧
+      (∀ m ∈ ms, ∃ more, behindStep chain m = .ok (false, more)) := by
+  intro n
+  induction n with
+  | zero => intro pending seen ms h; simp [unfulfilledBehindAux] at h
+  | succ k ih =>
+    intro pending seen ms h
+    cases pending with
+    | nil =>
+      simp only [unfulfilledBehindAux, Except.ok.injEq] at h
+      subst h
+      exact ⟨seen, fun x hx => hx, by simp, fun x hx => Or.inl hx, by simp⟩
+    | cons r rest =>
+      simp only [unfulfilledBehindAux] at h
+      split at h
+      · rename_i hseen
+        obtain ⟨S, h1, h2, h3, h4⟩ := ih rest seen ms h
+        refine ⟨S, h1, ?_, h3, h4⟩
+        intro x hx
+        simp only [List.mem_cons] at hx
+        rcases hx with rfl | hx
+        · exact h1 _ hseen
+        · exact h2 x hx
+      · split at h
+        · cases h
+        · rename_i more hs
+          cases hrec : unfulfilledBehindAux k chain rest (r :: seen) with
+          | error e => rw [hrec] at h; cases h
+          | ok ms' =>
+            rw [hrec] at h
+            simp only [Except.map, Except.ok.injEq] at h
+            subst h
+            obtain ⟨S, h1, h2, h3, h4⟩ := ih _ _ _ hrec
+            refine ⟨S, fun x hx => h1 x (by simp [hx]), ?_, ?_, ?_⟩
+            · intro x hx
+              simp only [List.mem_cons] at hx
+              rcases hx with rfl | hx
+              · exact h1 _ (by simp)
+              · exact h2 x hx
+            · intro x hx
+              rcases h3 x hx with hx' | hx' | hx'
+              · simp only [List.mem_cons] at hx'
+                rcases hx' with rfl | hx'
+                · exact Or.inr (Or.inr ⟨by simp, more, hs⟩)
+                · exact Or.inl hx'
+              · exact Or.inr (Or.inl hx')
+              · exact Or.inr (Or.inr ⟨by simp [hx'.1], hx'.2⟩)
+            · intro m hm
+              simp only [List.mem_cons] at hm
+              rcases hm with rfl | hm
+              · exact ⟨more, hs⟩
+              · exact h4 m hm
+        · rename_i more hs
+          obtain ⟨S, h1, h2, h3, h4⟩ := ih _ _ _ h
+          refine ⟨S, fun x hx => h1 x (by simp [hx]), ?_, ?_, h4⟩
+          · intro x hx
+            simp only [List.mem_cons] at hx
+            rcases hx with rfl | hx
+            · exact h1 _ (by simp)
+            · exact h2 x (by simp [hx])
+          · intro x hx
+            rcases h3 x hx with hx' | hx' | hx'
+            · simp only [List.mem_cons] at hx'
+              rcases hx' with rfl | hx'
+              · exact Or.inr (Or.inl ⟨more, hs, fun y hy => h2 y (by simp [hy])⟩)
+              · exact Or.inl hx'
+            · exact Or.inr (Or.inl hx')
+            · exact Or.inr (Or.inr hx')
+
+/-- **the gate sees through implementations, completely**: every forward function reachable from `r` through
+implementations is either implemented or among the reported ones; and the reported ones are unimplemented -/
+theorem unfulfilledBehind_complete (chain : List Scope) (r : FwdReq) (ms : List FwdReq)
+    (h : unfulfilledBehind chain r = .ok ms) :
+    (∀ r', Reach chain r r' → (∃ more, behindStep chain r' = .ok (true, more)) ∨ r' ∈ ms) ∧
+    (∀ m ∈ ms, ∃ more, behindStep chain m = .ok (false, more)) := by
+  obtain ⟨S, -, h2, h3, h4⟩ := unfulfilledBehindAux_inv chain _ _ _ _ h
+  refine ⟨?_, h4⟩
+  have hcl : ∀ x ∈ S, (∃ more, behindStep chain x = .ok (true, more) ∧ ∀ y ∈ more, y ∈ S) ∨
+      (x ∈ ms ∧ ∃ more, behindStep chain x = .ok (false, more)) := by
+    intro x hx
+    rcases h3 x hx with hx' | hx' | hx'
+    · simp at hx'
+    · exact Or.inl hx'
+    · exact Or.inr hx'
+  have hreach : ∀ a b, Reach chain a b → a ∈ S → b ∈ S := by
+    intro a b hab
+    induction hab with
+    | refl r => exact fun h => h
+    | step r r1 r2 more hs hm _ ih =>
+      intro hr
+      rcases hcl r hr with ⟨more', hs', hsub⟩ | ⟨-, more', hs'⟩
+      · rw [hs] at hs'
+        simp only [Except.ok.injEq, Prod.mk.injEq, true_and] at hs'
+        subst hs'
+        exact ih (hsub r1 hm)
+      · rw [hs] at hs'; simp at hs'
+  intro r' hr'
+  rcases hcl r' (hreach r r' hr' (h2 r (by simp))) with ⟨more, hs, -⟩ | ⟨hm, -⟩
+  · exact Or.inl ⟨more, hs⟩
+  · exact Or.inr hm
+
+theorem recordMissing_frame (ps : List Scope) (cur cur' : Scope) (ms : List FwdReq)
+    (h : recordMissing ps cur ms = .ok cur') :
+    cur'.cells = cur.cells ∧ cur'.height = cur.height ∧ cur'.forwards = cur.forwards ∧ cur'.vars = cur.vars ∧
+    cur'.funcs = cur.funcs ∧ cur'.reqs = cur.reqs ∧ cur'.decls = cur.decls ∧ cur'.recName = cur.recName ∧
+    (∀ r, r ∈ cur.fwdReqs → r ∈ cur'.fwdReqs) ∧
+    (∀ m ∈ ms, m.height ≠ cur.height ∧ m ∈ cur'.fwdReqs) := by
+  induction ms generalizing cur with
+  | nil => simp only [recordMissing, Except.ok.injEq] at h; subst h; simp
+  | cons m rest ih =>
+    simp only [recordMissing] at h
+    split at h
+    · split at h <;> cases h
+    · rename_i hne
+      have := ih _ h
+      simp only at this
+      obtain ⟨h1, h2, h3, h4, h5, h6, h7, h8, h9, h10⟩ := this
+      have hm : m ∈ cur'.fwdReqs := by
+        apply h9
+        split
+        · assumption
+        · simp
+      refine ⟨h1, h2, h3, h4, h5, h6, h7, h8, ?_, ?_⟩
+      · intro r' hr'
+        apply h9
+        split
+        · exact hr'
+        · simp [hr']
+      · intro m' hm'
+        simp only [List.mem_cons] at hm'
+        rcases hm' with rfl | hm'
+        · exact ⟨hne, hm⟩
+        · exact h10 m' hm'
+
 /-- `require_forwards` only ever touches the scope's `forward_requirements` set -/
 theorem requireForwards_frame (ps : List Scope) (cur cur' : Scope) (rs : List FwdReq)
     (h : requireForwards ps cur rs = .ok cur') :
@@ -403,79 +582,65 @@ theorem requireForwards_frame (ps : List Scope) (cur cur' : Scope) (rs : List Fw
     split at h
     · cases h
     · split at h
-      · split at h
-        · cases h
-        · have := ih _ h
-          simp only at this
-          obtain ⟨h1, h2, h3, h4, h5, h6, h7, h8, h9⟩ := this
-          refine ⟨h1, h2, h3, h4, h5, h6, h7, h8, ?_⟩
-          intro r' hr'
-          apply h9
-          split
-          · exact hr'
-          · simp [hr']
-      · exact ih _ h
+      · cases h
+      · rename_i cur1 hrec
+        obtain ⟨a1, a2, a3, a4, a5, a6, a7, a8, a9, -⟩ := recordMissing_frame _ _ _ _ hrec
+        obtain ⟨b1, b2, b3, b4, b5, b6, b7, b8, b9⟩ := ih _ h
+        exact ⟨b1.trans a1, b2.trans a2, b3.trans a3, b4.trans a4, b5.trans a5, b6.trans a6, b7.trans a7,
+               b8.trans a8, fun r' hr' => b9 r' (a9 r' hr')⟩
 
-/-- the gate: if `require_forwards` lets a list of requirements pass, none of them is an unfulfilled forward
-declaration of the current scope, and every unfulfilled one (of an enclosing scope) is now recorded in the
-scope's own requirements — which become the requirements of the function being compiled -/
+/-- the gate: if `require_forwards` lets a list of requirements pass, then none of the unfulfilled forward functions
+behind any of them (`unfulfilled_behind`: the requirement itself or — transitively — what its implementation needs)
+is a declaration of the current scope, and ALL of them are now recorded in the scope's own requirements — which
+become the requirements of the function being compiled -/
 theorem requireForwards_gate (ps : List Scope) (cur cur' : Scope) (rs : List FwdReq)
     (h : requireForwards ps cur rs = .ok cur') :
-    ∀ r ∈ rs, ∀ f, forwardRef (cur :: ps) r = .ok f → f.fulfilled = false →
-      r.height ≠ cur.height ∧ r ∈ cur'.fwdReqs := by
+    ∀ r ∈ rs, ∀ ms, unfulfilledBehind (cur :: ps) r = .ok ms →
+      ∀ m ∈ ms, m.height ≠ cur.height ∧ m ∈ cur'.fwdReqs := by
   induction rs generalizing cur with
   | nil => simp
   | cons r0 rest ih =>
-    intro r hr f hf hunf
+    intro r hr ms hms m hm
     simp only [requireForwards] at h
     split at h
     · cases h
-    · rename_i f0 hf0
+    · rename_i ms0 hms0
       split at h
-      · split at h
-        · cases h
-        · rename_i hne
-          have hfr := requireForwards_frame _ _ _ _ h
-          simp only at hfr
-          simp only [List.mem_cons] at hr
-          rcases hr with rfl | hr
-          · refine ⟨hne, ?_⟩
-            apply hfr.2.2.2.2.2.2.2.2
-            split
-            · assumption
-            · simp
-          · have := ih _ h r hr f (by refine (forwardRef_congr cur _ ps r ?_ ?_).trans hf <;> rfl) hunf
-            exact this
-      · rename_i hful
+      · cases h
+      · rename_i cur1 hrec
+        obtain ⟨a1, a2, a3, -, -, a6, -, -, -, a10⟩ := recordMissing_frame _ _ _ _ hrec
+        have hfr := requireForwards_frame _ _ _ _ h
         simp only [List.mem_cons] at hr
         rcases hr with rfl | hr
-        · rw [hf0] at hf
-          cases hf
-          simp [hunf] at hful
-        · exact ih _ h r hr f hf hunf
+        · rw [hms0] at hms
+          simp only [Except.ok.injEq] at hms
+          subst hms
+          exact ⟨(a10 m hm).1, hfr.2.2.2.2.2.2.2.2 m (a10 m hm).2⟩
+        · have := ih _ h r hr ms (by rw [unfulfilledBehind_congr cur cur1 ps r a2 a3 a1 a6]; exact hms) m hm
+          exact ⟨by rw [← a2]; exact this.1, this.2⟩
 
-/-- a function whose requirements include an unfulfilled forward declaration of the current scope cannot be
+/-- a function behind whose requirements stands an unfulfilled forward declaration of the current scope cannot be
 used — neither called (`prepare_return`) nor taken as a value (`Ident`) -/
-theorem useCand_blocked (ps : List Scope) (cur : Scope) (c : Cand) (r : FwdReq) (f : FwdRef)
-    (hr : r ∈ c.2.2) (hf : forwardRef (cur :: ps) r = .ok f) (hunf : f.fulfilled = false)
-    (hh : r.height = cur.height) : ∀ out, useCand ps cur c ≠ .ok out := by
+theorem useCand_blocked (ps : List Scope) (cur : Scope) (c : Cand) (r m : FwdReq) (ms : List FwdReq)
+    (hr : r ∈ c.2.2) (hms : unfulfilledBehind (cur :: ps) r = .ok ms) (hm : m ∈ ms)
+    (hh : m.height = cur.height) : ∀ out, useCand ps cur c ≠ .ok out := by
   intro out hout
   simp only [useCand] at hout
   split at hout
   · cases hout
   · rename_i cur' hreq
-    exact (requireForwards_gate ps cur cur' _ hreq r hr f hf hunf).1 hh
+    exact (requireForwards_gate ps cur cur' _ hreq r hr ms hms m hm).1 hh
 
-/-- and when it is used from a deeper scope, that scope inherits the requirement -/
-theorem useCand_inherits (ps : List Scope) (cur cur' : Scope) (c : Cand) (e : XE) (r : FwdReq) (f : FwdRef)
+/-- and when it is used from a deeper scope, that scope inherits every unfulfilled requirement -/
+theorem useCand_inherits (ps : List Scope) (cur cur' : Scope) (c : Cand) (e : XE) (r m : FwdReq) (ms : List FwdReq)
     (h : useCand ps cur c = .ok (e, cur'))
-    (hr : r ∈ c.2.2) (hf : forwardRef (cur :: ps) r = .ok f) (hunf : f.fulfilled = false) :
-    r ∈ cur'.fwdReqs := by
+    (hr : r ∈ c.2.2) (hms : unfulfilledBehind (cur :: ps) r = .ok ms) (hm : m ∈ ms) :
+    m ∈ cur'.fwdReqs := by
   simp only [useCand] at h
   split at h
   · cases h
   · rename_i cur1 hreq
-    have := (requireForwards_gate ps cur cur1 _ hreq r hr f hf hunf).2
+    have := (requireForwards_gate ps cur cur1 _ hreq r hr ms hms m hm).2
     split at h
     · simp only [Except.ok.injEq, Prod.mk.injEq] at h; rw [← h.2]; exact this
     · simp only [Except.ok.injEq, Prod.mk.injEq] at h; rw [← h.2]; simpa [Scope.push] using this
@@ -1004,33 +1169,39 @@ theorem compile_ext : ∀ fuel : Nat,
 
 /-! ### the host-side gate -/
 
+theorem namesOf_nil (root : Scope) (ms : List FwdReq) (h : namesOf root ms = some []) : ms = [] := by
+  cases ms with
+  | nil => rfl
+  | cons m rest =>
+    simp only [namesOf] at h
+    split at h
+    · cases h
+    · cases hn : namesOf root rest <;> simp [hn] at h
+
 theorem unmetNames_nil (root : Scope) (rs : List FwdReq) (h : unmetNames root rs = some []) :
-    ∀ r ∈ rs, ∀ f, forwardRef [root] r = .ok f → f.fulfilled = true := by
+    ∀ r ∈ rs, unfulfilledBehind [root] r = .ok [] := by
   induction rs with
   | nil => simp
   | cons r0 rest ih =>
-    intro r hr f hf
+    intro r hr
     simp only [unmetNames] at h
     split at h
     · cases h
-    · rename_i f0 hf0
+    · rename_i ms hms
       split at h
+      · rename_i a b ha hb
+        simp only [Option.some.injEq, List.append_eq_nil_iff] at h
+        obtain ⟨rfl, rfl⟩ := h
+        simp only [List.mem_cons] at hr
+        rcases hr with rfl | hr
+        · rw [hms, namesOf_nil root ms ha]
+        · exact ih hb r hr
       · cases h
-      · rename_i l hl
-        split at h
-        · rename_i hful
-          simp only [Option.some.injEq] at h
-          subst h
-          simp only [List.mem_cons] at hr
-          rcases hr with rfl | hr
-          · rw [hf0] at hf; cases hf; exact hful
-          · exact ih hl r hr f hf
-        · cases h
 
-/-- the host-side gate: `get_user_defined_function` hands out a function only if every forward declaration it
-(transitively) needs is fulfilled -/
+/-- the host-side gate: `get_user_defined_function` hands out a function only if nothing unfulfilled stands behind
+any of its requirements -/
 theorem hostGet_ok (root : Scope) (x : String) (k : Nat) (h : hostGet root x = .ok k) :
-    ∀ r ∈ root.cellReqs k, ∀ f, forwardRef [root] r = .ok f → f.fulfilled = true := by
+    ∀ r ∈ root.cellReqs k, unfulfilledBehind [root] r = .ok [] := by
   simp only [hostGet] at h
   split at h
   · cases h
